@@ -380,7 +380,9 @@ def run(tier, seed):
     if tier == "quick":
         payload = {"seed": seed, "avoid": avoid, "max_len": 3, "sample": 1600, "n_random": 32, "random_len": 12}
     else:
-        payload = {"seed": seed, "avoid": avoid, "max_len": 4, "sample": 0, "n_random": 600, "random_len": 40}
+        # 36 notifications (2 kinds x 2 documents x 9 texts): all 46 656 sequences of length 3, as prefixes of a seeded
+        # sample of 46 656 x 2 sequences of length 4 (the full 1.7 million would take hours)
+        payload = {"seed": seed, "avoid": avoid, "max_len": 4, "sample": 93312, "n_random": 600, "random_len": 40}
     parts = core.run_sharded(shard, payload)
     payload["n_project"] = 1500 if tier == "quick" else 60000
     parts += core.run_sharded(project_shard, payload)
